@@ -103,12 +103,13 @@ Proof.
   - unfold q_kind. destruct (lookup (sgates s) g); [|discriminate]. destruct (is_poisoned s g); discriminate.
   - unfold q_next. destruct (lookup (sgates s) g) as [x|]; [|discriminate]. destruct (is_poisoned s g); [discriminate|].
     destruct (kind_of x); discriminate.
-  - unfold q_end. pose proof (q_iter_out s g HI) as H. destruct (q_iter s g) as [| | | |p| | | | | |]; try discriminate; [destruct p; discriminate|contradiction H; reflexivity].
+  - unfold q_end. pose proof (q_iter_out s g HI) as H. destruct (q_iter s g) as [| | | |p| | | | | | |]; try discriminate; [destruct p; discriminate|contradiction H; reflexivity].
   - apply q_iter_out. exact HI.
   - destruct (lookup (sgates s) g); discriminate.
   - destruct (lookup (sgates s) g); [destruct (lookup (sgates s) g')|]; discriminate.
   - discriminate.
   - apply connect_out.
+  - discriminate.
 Qed.
 
 Lemma exec_snd_cons s o r : snd (exec s (o :: r)) = snd (step s o) :: snd (exec (fst (step s o)) r).
